@@ -13,7 +13,6 @@ pub mod stream_syntax;
 
 // Cached main regexes - compiled once at startup
 static RULE_REGEX: OnceLock<Pattern> = OnceLock::new();
-static RULE_SPLIT_REGEX: OnceLock<Pattern> = OnceLock::new();
 static DEFMODULE_REGEX: OnceLock<Pattern> = OnceLock::new();
 static DEFMODULE_SPLIT_REGEX: OnceLock<Pattern> = OnceLock::new();
 static SALIENCE_REGEX: OnceLock<Pattern> = OnceLock::new();
@@ -32,17 +31,9 @@ static MULTIFIELD_NOT_EMPTY_REGEX: OnceLock<Pattern> = OnceLock::new();
 static SIMPLE_CONDITION_REGEX: OnceLock<Pattern> = OnceLock::new();
 
 // Helper functions to get or initialize regexes
-fn rule_regex() -> &'static Pattern {
+fn rule_header_regex() -> &'static Pattern {
     RULE_REGEX.get_or_init(|| {
-        Pattern::new(r#"rule\s+(?:"([^"]+)"|([a-zA-Z_]\w*))\s*([^{]*)\{(.+)\}"#)
-            .expect("Invalid rule regex pattern")
-    })
-}
-
-fn rule_split_regex() -> &'static Pattern {
-    RULE_SPLIT_REGEX.get_or_init(|| {
-        Pattern::new(r#"(?s)rule\s+(?:"[^"]+"|[a-zA-Z_]\w*).*?\}"#)
-            .expect("Invalid rule split regex pattern")
+        Pattern::new(r#"rule\s+(?:"([^"]+)"|([a-zA-Z_]\w*))"#).expect("Invalid rule header pattern")
     })
 }
 
@@ -422,13 +413,14 @@ impl GRLParser {
     fn parse_single_rule(&mut self, grl_text: &str) -> Result<Rule> {
         let cleaned = self.clean_text(grl_text);
 
-        // Extract rule components using cached regex
-        let captures =
-            rule_regex()
-                .captures(&cleaned)
-                .ok_or_else(|| RuleEngineError::ParseError {
-                    message: format!("Invalid GRL rule format. Input: {}", cleaned),
-                })?;
+        // The rule starts at its header `rule <name>`; the attributes run up to the first `{`
+        // outside string literals (a `{` inside a description string is part of the string) and
+        // the body up to the last `}` of the text.
+        let invalid = || RuleEngineError::ParseError {
+            message: format!("Invalid GRL rule format. Input: {}", cleaned),
+        };
+        let (_, header_end) = rule_header_regex().find(&cleaned).ok_or_else(invalid)?;
+        let captures = rule_header_regex().captures(&cleaned).ok_or_else(invalid)?;
 
         // Rule name can be either quoted (group 1) or unquoted (group 2)
         let rule_name = if let Some(quoted_name) = captures.get(1) {
@@ -441,11 +433,18 @@ impl GRLParser {
             });
         };
 
-        // Attributes section (group 3)
-        let attributes_section = captures.get(3).unwrap_or("");
+        let after_header = &cleaned[header_end..];
+        let open = Self::find_outside_strings(after_header, "{").ok_or_else(invalid)?;
+        let close = after_header.rfind('}').ok_or_else(invalid)?;
+        if close <= open + 1 {
+            return Err(invalid());
+        }
 
-        // Rule body (group 4)
-        let rule_body = captures.get(4).unwrap();
+        // Attributes section (between the name and the opening brace)
+        let attributes_section = &after_header[..open];
+
+        // Rule body (between the braces)
+        let rule_body = &after_header[open + 1..close];
 
         // Parse salience from attributes section
         let salience = self.extract_salience(attributes_section)?;
@@ -549,10 +548,18 @@ impl GRLParser {
             .collect::<Vec<_>>()
             .join("\n");
 
-        for rule_match in rule_split_regex().find_iter(&uncommented) {
-            let rule_text = rule_match.as_str();
-            let rule = self.parse_single_rule(rule_text)?;
+        // A rule block runs from its header `rule <name>` to the first `}` outside string literals
+        // (a `}` inside a string literal is part of the string).
+        let mut pos = 0;
+        while let Some((start, _)) = rule_header_regex().find(&uncommented[pos..]) {
+            let start = pos + start;
+            let end = match Self::find_outside_strings(&uncommented[start..], "}") {
+                Some(i) => start + i + 1,
+                None => break,
+            };
+            let rule = self.parse_single_rule(&uncommented[start..end])?;
             rules.push(rule);
+            pos = end;
         }
 
         Ok(rules)
